@@ -10,6 +10,7 @@ from .protocolentities import ResultRequestUploadIqProtocolEntity
 from .protocolentities import MediaMessageProtocolEntity
 from .protocolentities import ExtendedTextMediaMessageProtocolEntity
 from yowsup.layers.protocol_iq.protocolentities import IqProtocolEntity, ErrorIqProtocolEntity
+from yowsup.layers.protocol_messages.proto.e2e_pb2 import Message
 import logging
 
 logger = logging.getLogger(__name__)
@@ -33,6 +34,12 @@ class YowMediaProtocolLayer(YowProtocolLayer):
     def recvMessageStanza(self, node):
         if node.getAttributeValue("type") == "media":
             mediaNode = node.getChild("proto")
+            payload = Message()
+            payload.ParseFromString(mediaNode.getData())
+            if payload.HasField("sender_key_distribution_message") and len(payload.ListFields()) == 1:
+                # a sender key distribution on its own (it precedes the first group message to a participant)
+                # is not a media message, whatever the mediatype attribute of its envelope says
+                return
             if mediaNode.getAttributeValue("mediatype") == "image":
                 entity = ImageDownloadableMediaMessageProtocolEntity.fromProtocolTreeNode(node)
                 self.toUpper(entity)
